@@ -8,7 +8,8 @@ package instr
 //   (a) fields of struct types declared in this package (address &x.f),
 //   (b) map contents, by map identity (zzcore.MapPtr(m)),
 //   (c) slice elements (address &s[i]),
-//   (d) local variables captured by a function literal (address &v).
+//   (d) local variables captured by a function literal (address &v),
+//   (e) package-level variables of this package (address &v).
 // Anything that cannot be announced without evaluating side effects twice, or
 // that is only conditionally evaluated (right operands of && and ||), is
 // skipped: the detector may miss a race there but never invents one.
@@ -253,7 +254,14 @@ func (r *rewriter) fieldAccess(sel *ast.SelectorExpr, write bool) *access {
 
 func (r *rewriter) varAccess(id *ast.Ident, write bool) *access {
 	v, ok := r.info.Uses[id].(*types.Var)
-	if !ok || !r.captured[v] || isSyncType(v.Type()) {
+	if !ok || isSyncType(v.Type()) || v.IsField() {
+		return nil
+	}
+	if v.Pkg() == r.pkg && v.Parent() == r.pkg.Scope() {
+		// (e) package-level variable of this package
+		return &access{ptr: r.unsafePtr(&ast.UnaryExpr{Op: token.AND, X: ast.NewIdent(id.Name)}), what: "package variable " + id.Name, write: write, key: "g:" + id.Name}
+	}
+	if !r.captured[v] {
 		return nil
 	}
 	return &access{ptr: r.unsafePtr(&ast.UnaryExpr{Op: token.AND, X: ast.NewIdent(id.Name)}), what: "captured variable " + id.Name, write: write, key: "v:" + id.Name}
